@@ -908,3 +908,63 @@ func hasNoAddr(peers []rowSpec) bool {
 	}
 	return false
 }
+
+// handoverSession: at session level, over the wire.  The node-event handler goroutine of the first window is
+// held (shim gate) while a frame for the next window arrives: DOWN for node 2, window closes, DOWN for
+// node 3 arrives, the first handler runs, the second window closes.  Both nodes must end up down.
+func handoverSession(o *hlib.Out) func() {
+	type res struct {
+		sr   *sessRun
+		viol []string
+	}
+	ch := make(chan res, 1)
+	go func() {
+		l1 := localAt(1, v4(1))
+		sr, err := newSessRun(o, sessCfg{}, 1, l1, []rowSpec{peerAt(2, v4(2)), peerAt(3, v4(3))})
+		if err != nil {
+			ch <- res{nil, []string{"session creation failed: " + err.Error()}}
+			return
+		}
+		var viol []string
+		release := gocql.VerifC16GateNodeEvents(sr.s)
+		down := func(k int64) bool {
+			h := sr.rg.GetHost(idStr(k))
+			return h != nil && !h.IsUp()
+		}
+		wait := func(d time.Duration, cond func() bool) {
+			deadline := time.Now().Add(d)
+			for !cond() && time.Now().Before(deadline) {
+				time.Sleep(5 * time.Millisecond)
+			}
+		}
+		step := func(k int64, what string) {
+			key, _ := ipCode(v4(int(k)))
+			sr.text = append(sr.text, what)
+			sr.steps = append(sr.steps, fmt.Sprintf("SO (SEvents [EStatus 2 %s]) %s", hlib.Z(key), sr.obs(0, false)))
+		}
+		sr.nd.sendEvent("STATUS_CHANGE", "DOWN", v4(2), 9042)
+		time.Sleep(1250 * time.Millisecond) // the window closes; its handler is held at the gate
+		sr.nd.sendEvent("STATUS_CHANGE", "DOWN", v4(3), 9042)
+		time.Sleep(50 * time.Millisecond)
+		release()
+		wait(2*time.Second, func() bool { return down(2) })
+		step(2, "DOWN 10.0.0.2 over the wire; window closed, handler held; DOWN 10.0.0.3 arrives; handler released")
+		wait(3*time.Second, func() bool { return down(3) })
+		step(3, "second window closes")
+		if !down(2) || !down(3) {
+			viol = append(viol, fmt.Sprintf("DOWN was reported for nodes 2 and 3 in consecutive windows; marked down: node 2 %v, node 3 %v", down(2), down(3)))
+		}
+		ch <- res{sr, viol}
+	}()
+	return func() {
+		r := <-ch
+		if r.sr == nil {
+			o.Count("session-create-failed")
+			return
+		}
+		for _, v := range r.viol {
+			r.sr.violate("event-batch-changed-after-handover", "", v)
+		}
+		r.sr.finish("session-handover")
+	}
+}
